@@ -91,8 +91,8 @@ TOut ==
                 m == Len(ColSeq)
                 rr == Ev.seqs[cs.rows]
                 rc == Ev.seqs[3 - cs.rows]
-            IN Report((IF ~WellFormed(n, m, cells) THEN {"Kernel.cells-not-well-formed"} ELSE {})
-                      \cup (IF WellFormed(n, m, cells) /\ Codes(n, m, cells) # PathOf(rr, rc) THEN {"Kernel.rows-differ-from-the-rendered-path"} ELSE {}))
+            IN Report((IF ~WellFormedCells(n, m, cells) THEN {"Kernel.cells-not-well-formed"} ELSE {})
+                      \cup (IF WellFormedCells(n, m, cells) /\ Codes(n, m, cells) # PathOf(rr, rc) THEN {"Kernel.rows-differ-from-the-rendered-path"} ELSE {}))
 
 TOther ==
     /\ l <= Len(Trace)
